@@ -111,6 +111,10 @@ def _run(eng, c, fn, scenario):
     reqs = list(c.requires) + list((scenario or {}).get("requires", []))
     for i_r, r in enumerate(reqs):
         st.assume(se.boolean(r), tag=f"requires:{c.labels.get(r, i_r)}")
+    for i_a, a_ in enumerate(c.assumes):
+        st.assume(se.boolean(a_), tag=f"requires:{c.labels.get(a_, 'assumed-' + str(i_a))}")
+        eng.assumption_log.add(f"assumed invariant of parsed notation objects at entry of {c.key}: {c.labels.get(a_, a_)[:120]} (established by the string-surgery constructors; "
+                               "checked natively on every parsed object by the bounded C02 driver; generation never writes notation-owned objects: frame obligations)")
     # old state must see the facts assumed so far and the arrays materialised by the requires
     st.old = st.fork()
     st.old.old = None
